@@ -484,3 +484,25 @@ Proof.
 Qed.
 
 Print Assumptions C12_states_with_data_translated.
+
+(* ---- extra wave: the value loop of linearPalette.ReadFrom *)
+From GoMC Require Proofs.C12_skel_pal.
+(* the translated loop body of linearPalette.ReadFrom (value.ReadFrom(r), the error exit, n += nn,
+   l.values[i] = T(value); C12_skel_pal.lin_body is that part of the recorded body), iterated by the
+   interpreter over the remaining indices from any state reached after |acc| values
+   (C12_skel_pal.lin_loop_run), IS the model's read_vals on the remaining input: same values, same byte
+   count, same rest, same error - by induction over the number of values left.  (The rest of the body -
+   size read, the two tests, make / reslice - and hashPalette.ReadFrom are still pinned by *_skel_ok only.) *)
+Theorem C12_linear_read_loop_translated : forall size cp pb n0 m acc a nN rest lastv fuel, a = List.length acc ->
+  run_flat (read_vals fuel (Z.of_nat m) (rev acc) nN) rest <> FFuel ->
+  match run_flat (read_vals fuel (Z.of_nat m) (rev acc) nN) rest with
+  | FOk (vs, mN) rest' =>
+      exists lastv', C12_skel_pal.lin_loop_run lastv size rest acc m cp pb (Z.of_N n0 + Z.of_N nN) a
+                     = SN (C12_skel_pal.lin_env lastv' size rest' vs cp pb (Z.of_N n0 + Z.of_N mN))
+  | FErr e => exists env' k, C12_skel_pal.lin_loop_run lastv size rest acc m cp pb (Z.of_N n0 + Z.of_N nN) a
+                             = SR env' [VZ k; VErr e]
+  | _ => False
+  end.
+Proof. exact C12_skel_pal.lin_loop. Qed.
+
+Print Assumptions C12_linear_read_loop_translated.
